@@ -393,5 +393,7 @@ def jobs(tier):
     out = [("scaling-2", lambda j: job_scaling(j, 2)), ("bounds", job_bounds), ("fit-2", lambda j: job_fit(j, 2)), ("refit-2", lambda j: job_refit(j, 2)),
            ("fit-2-halfinf", lambda j: job_fit(j, 2, inf_hi=True))]
     if tier != "quick":
-        out += [("scaling-3", lambda j: job_scaling(j, 3)), ("fit-3", lambda j: job_fit(j, 3))]
+        out += [("scaling-3", lambda j: job_scaling(j, 3)), ("fit-3", lambda j: job_fit(j, 3)), ("scaling-5", lambda j: job_scaling(j, 5)),
+                ("fit-4", lambda j: job_fit(j, 4)), ("fit-3-halfinf", lambda j: job_fit(j, 3, inf_hi=True)), ("refit-3", lambda j: job_refit(j, 3)),
+                ("scaling-8", lambda j: job_scaling(j, 8)), ("fit-6", lambda j: job_fit(j, 6)), ("refit-5", lambda j: job_refit(j, 5))]
     return out
